@@ -22,6 +22,10 @@ FEATURE_TO_FINDING = {
     "hz:list-mutate-nested": "KF-stale-len", "hz:list-str-append-literal": "KF-list-append-literal",
     "hz:list-float-append-literal": "KF-list-float-append-literal", "hz:stmt-call-types": "KF-stmt-call-types",
     "hz:param-retype": "KF-param-retype-in-body", "hz:list-local": "KF-list-local-leak", "hz:uncalled-helper": "KF-stmt-call-types",
+    # expressions that also decide the DECLARED type of their target (int for int/int, bool for and/or, int for abs/min/max
+    # of floats): the declaration is wrong even when the hazardous expression itself is never executed on this run
+    "hz:truediv": "KF-truediv-int", "hz:andor": "KF-andor-value", "hz:abs-float": "KF-minmax-abs-int-typed", "hz:minmax-float": "KF-minmax-abs-int-typed",
+    "hz:pow": "KF-pow",
 }
 
 
